@@ -12,6 +12,9 @@ WHAT = ['values', 'cov', 'valid', 'nvalid', 'covmap', 'fracdet', 'covpix', 'subm
 
 
 def gen(rng):
+    from harness import gens2
+    if rng.random() < 0.5:
+        return gens2.gen_c02(rng)
     h = gens.gen_c01_history(rng, max_steps=6)
     for st in h:
         if st['op'] == 'check':
